@@ -329,6 +329,21 @@ CtxG ==
      Items({1, 2, 4, 6}), 3) :
      gv \in {"absent", "m1-uncl"}, ty \in {7, 8}, f \in {1, 2, 3}, fl \in {0, 8}}
 
+\* a contextual rule that re-anchors the SECOND mark of a stack: the nested MarkBase / MarkLig
+\* lookup (flag 0) attaches to the preceding base / ligature, stepping over the first mark
+CtxMarkStack ==
+  {T(<<"ctx-markstack", ty, nty, m>>,
+     Prog("kern", "latn",
+          <<Lk(ty, 0, -1, FALSE,
+               <<IF ty = 7
+                 THEN [f |-> 3, covs |-> <<Cov(1, <<1, 2, 3>>), Cov(2, <<4, 5>>), Cov(1, <<4, 5>>)>>, recs |-> << <<2, 1>> >>]
+                 ELSE [f |-> 3, bt |-> <<Cov(1, <<1, 2, 3>>)>>, inp |-> <<Cov(1, <<4, 5>>), Cov(2, <<4, 5>>)>>, la |-> <<>>,
+                       recs |-> << <<1, 1>> >>]>>),
+            IF nty = 4 THEN Lk(4, 0, -1, FALSE, <<MarkBaseSub(1, 1)>>) ELSE Lk(5, 0, -1, FALSE, <<MarkLigSub(1, 1)>>)>>,
+          <<0>>, <<>>, TRUE, m),
+     IF nty = 4 THEN Items({1, 2, 4, 5}) ELSE {It(3), It(1), ItC(4, 0), ItC(4, 1), ItC(5, 0)}, 3) :
+     ty \in {7, 8}, nty \in {4, 5}, m \in {0, 1}}
+
 \* ---- several lookups adjusting the same glyphs (accumulation, order) -------------------
 SingleOn(cov, vf, r) == Lk(1, 0, -1, FALSE, <<[f |-> 1, cov |-> Cov(1, cov), vf |-> vf, v |-> V(r)]>>)
 MultiOf(m) ==
@@ -477,6 +492,7 @@ CombPair ==
 PairsC == << <<1, 2, -30>>, <<2, 1, 25>>, <<2, 7, -19>>, <<7, 1, 33>> >>
 
 AllOf(ls) == [k \in 1 .. Len(ls) |-> k - 1]
+RevOf(ls) == [k \in 1 .. Len(ls) |-> Len(ls) - k]
 CombProg(ls, kern, m) == Prog("curs", "arab", ls, AllOf(ls), kern, TRUE, m)
 CombOrd(ord, curs, rest) == IF ord = "cm" THEN <<curs>> \o rest ELSE rest \o <<curs>>
 
@@ -528,10 +544,11 @@ CombStrsDist ==
         {<<>>, <<7>>, <<7, 5>>})
 CombCursDist ==
   {TW(<<"comb-curs-dist", c[1], c[2], c[3], c[4]>>,
-      CombProg(IF c[4]
+      \* (the feature lists its lookups in decreasing order: they still apply in lookup-list order)
+      [CombProg(IF c[4]
                THEN <<CombDist(IF c[3] = 0 THEN 3 ELSE 7), CombCurs(c[1], c[2], TRUE), CombMarkBase(TRUE), CombMkMk>>
                ELSE <<CombCurs(c[1], c[2], TRUE), CombMarkBase(TRUE), CombMkMk, CombDist(IF c[3] = 0 THEN 3 ELSE 7)>>,
-               <<>>, c[3]),
+               <<>>, c[3]) EXCEPT !.feat = RevOf(@)],
       CombStrsDist) :
      c \in {c \in {"x0", "fity", "gen"} \X {8, 9} \X {0, 1} \X BOOLEAN : ~c[4] \/ ~Quick \/ c[2] = 9}}
 
@@ -566,7 +583,7 @@ Templates ==
   \cup Curs \cup MarkBase \cup MarkBaseMulti \cup MarkLig \cup MarkMark \cup Ctx \cup Multi
   \cup KernFallback \cup KernWithGpos \cup KernWithDist
   \cup SingleFlagG \cup Pair1LongG \cup MarkBaseG \cup MarkLigG \cup MarkMarkG \cup CtxG \cup MultiG \cup KernWithGposG
-  \cup Comb
+  \cup Comb \cup CtxMarkStack
 
 \* thorough: one more glyph per string
 LenOf(t) == IF Quick THEN t.n ELSE t.n + 1
